@@ -293,6 +293,38 @@ end Gen.CastMatrix
         ctx.case(("same-dtype-independent", d), True)
         if not np.array_equal(np.ma.getdata(x.to_numpy()).astype(str), np.ma.getdata(before).astype(str)):
             ctx.violation(f"astype/{d}->{d}/shares-storage", f"astype({d} -> {d}) result shares storage with its argument", {"dtype": d})
+    # a core -> nullable cast yields an all-false mask that belongs to the result alone: a null written into one result
+    # must not show up in the mask of a later, unrelated cast (of the same or of another shape)
+    ndx = impl.ndx
+    for src, dst in [("int32", "nint64"), ("float64", "nfloat32"), ("bool", "nint8"), ("int64", "nutf8"), ("uint8", "nuint8"), ("float32", "nbool")]:
+        for how in ("astype", "asarray-dtype", "method"):
+            for write in ("setitem-null", "null-field"):
+                ident = ("fresh-mask", src, dst, how, write)
+                ctx.case(ident, True)
+                try:
+                    def cast(v):
+                        a = ndx.asarray(v)
+                        if how == "astype":
+                            return ndx.astype(a, impl.dt(dst))
+                        if how == "method":
+                            return a.astype(impl.dt(dst))
+                        return ndx.asarray(a, dtype=impl.dt(dst))
+                    first = cast(impl.token_array((3,), src))
+                    if write == "setitem-null":
+                        first[1] = ndx.asarray(np.ma.masked_array(np.array(0, dtype=impl.np_dtype(dst)), mask=True))
+                    else:
+                        first.null[1] = True
+                    second = cast(impl.token_array((3,), src, salt=1))
+                    third = cast(impl.token_array((2, 3), src))
+                    m2 = np.ma.getmaskarray(second.to_numpy()).tolist()
+                    m3 = np.ma.getmaskarray(third.to_numpy()).tolist()
+                except Exception as e:
+                    ctx.count("fresh-mask-skipped:" + type(e).__name__)
+                    continue
+                if any(m2) or any(any(r) for r in m3):
+                    ctx.violation(f"astype/{src}->{dst}/mask-shared-between-casts",
+                                  f"after writing a null into one {src}->{dst} cast result ({write}), a later cast ({how}) of an unrelated array has mask {m2} / {m3}",
+                                  {"source": src, "target": dst, "how": how, "write": write, "mask_same_shape": m2, "mask_other_shape": m3})
     ctx.extra["source_values_cast"] = n_vals
     cast_graph_tie(ctx)
     ctx.extra["exhaustive"] = True
